@@ -66,7 +66,7 @@ func checkC03(a *checkArgs, r *Result) error {
 	defer dp.Close()
 	r.Rule = "valid foreign streams: the frozen liblzma 5.8.2 corpus (varied presets, lc/lp/pb, checks, block sizes) and streams built by the Lean spec encoder from generated legal operation sequences (literal, match, rep0-3, short rep; lengths 2..273; distances up to the window edge), chunk layouts (all 7 kinds, mid-stream state/property/dictionary resets, raw chunks) and container layouts (optional size fields, header padding, empty blocks/streams, all checks); each read by the real reader under several ReaderConfig.DictCap values; expected content is known by construction. Non-trivial: >= 2 chunk kinds or a rep/short-rep operation; distinct by stream bytes."
 	rng := rand.New(rand.NewSource(a.seed))
-	n, maxOps := 500, 120
+	n, maxOps := 2000, 150
 	if a.tier == "thorough" {
 		n, maxOps = 8000, 400
 	}
